@@ -455,6 +455,18 @@ func mayReturnNilErr(r *ssa.Return) bool {
 			if cellNonNilAt(fn, ld.X, r.Block()) {
 				continue
 			}
+			// or every store that can reach this load puts a fresh error there
+			if vals, ok := cellValuesAt(ld); ok && len(vals) > 0 {
+				all := true
+				for _, sv := range vals {
+					if sv == nil || isNilConst(sv) || !definitelyNonNilErr(sv) {
+						all = false
+					}
+				}
+				if all {
+					continue
+				}
+			}
 		}
 		// or it is the error of a (bool, error) validator returned on its false edge
 		if ex, ok := v.(*ssa.Extract); ok {
@@ -470,6 +482,78 @@ func mayReturnNilErr(r *ssa.Return) bool {
 		return true
 	}
 	return false
+}
+
+// cellValuesAt: the values a load of a local cell can see — the nearest store
+// on every path back from the load (nil for the zero value at entry). Only for
+// cells nothing but this function writes: closures that capture the cell may
+// read it, not store to it.
+func cellValuesAt(ld *ssa.UnOp) ([]ssa.Value, bool) {
+	cell, ok := ld.X.(*ssa.Alloc)
+	if !ok {
+		return nil, false
+	}
+	if refs := cell.Referrers(); refs != nil {
+		for _, r := range *refs {
+			switch x := r.(type) {
+			case *ssa.Store:
+				if x.Addr != ssa.Value(cell) {
+					return nil, false // the address itself is stored somewhere
+				}
+			case *ssa.UnOp, *ssa.DebugRef:
+			case *ssa.MakeClosure:
+				cfn, _ := x.Fn.(*ssa.Function)
+				if cfn == nil {
+					return nil, false
+				}
+				for i, b := range x.Bindings {
+					if b != ssa.Value(cell) || i >= len(cfn.FreeVars) {
+						continue
+					}
+					if fr := cfn.FreeVars[i].Referrers(); fr != nil {
+						for _, u := range *fr {
+							switch y := u.(type) {
+							case *ssa.UnOp, *ssa.DebugRef:
+							default:
+								_ = y
+								return nil, false
+							}
+						}
+					}
+				}
+			default:
+				return nil, false
+			}
+		}
+	}
+	var out []ssa.Value
+	seen := map[*ssa.BasicBlock]bool{}
+	var walk func(b *ssa.BasicBlock, from int)
+	walk = func(b *ssa.BasicBlock, from int) {
+		for i := from; i >= 0; i-- {
+			if st, ok := b.Instrs[i].(*ssa.Store); ok && st.Addr == ssa.Value(cell) {
+				// a copy of the cell onto itself (`return "", err` with a named result) is what it held before
+				if l2, ok := st.Val.(*ssa.UnOp); ok && l2.Op == token.MUL && l2.X == ssa.Value(cell) && l2.Block() == b && instrIndex(l2) < i {
+					i = instrIndex(l2)
+					continue
+				}
+				out = append(out, st.Val)
+				return
+			}
+		}
+		if len(b.Preds) == 0 {
+			out = append(out, nil)
+			return
+		}
+		for _, p := range b.Preds {
+			if !seen[p] {
+				seen[p] = true
+				walk(p, len(p.Instrs)-1)
+			}
+		}
+	}
+	walk(ld.Block(), instrIndex(ld)-1)
+	return out, true
 }
 
 // validatorFalseMeansErr: the static callee returns a non-nil error on every
